@@ -416,6 +416,24 @@ class ProgGen:
         self.pending.append({"op": "add", "pulse": gen_pulse(r, so, d=unit(so) * pick(r, [1, 3, 8]), phase=self._phase(m)),
                              "ch": m, "protocol": "no-delay"})
 
+    def _motif_idle_twice(self, op: dict) -> None:
+        """After a pulse on a channel with a modulation bandwidth: a short delay and then one of about the rise time,
+        together shorter than the pulse's fall time (the ramp-down is still pending behind two idle slots). (opt-in)"""
+        if "idle-twice" not in self.motifs or self.pending:
+            return
+        r = self.rng
+        n = op["ch"]
+        c = self.chans.get(n)
+        if c is None or c["eom"] or c["dmm"] or not c["spec"].get("mod_bandwidth") or r.random() >= self.motifs["idle-twice"]:
+            return
+        sp = c["spec"]
+        clk, mn = int(sp.get("clock_period", 1)), int(sp.get("min_duration", 1))
+        unit = -(-max(mn, 1) // clk) * clk
+        rise = int(0.48 / float(sp["mod_bandwidth"]) * 1e3)
+        second = max(unit, -(-int(rise * pick(r, [1.0, 1.1, 1.5])) // clk) * clk)
+        self.pending.append({"op": "delay", "duration": unit * pick(r, [1, 1, 2]), "ch": n})
+        self.pending.append({"op": "delay", "duration": second, "ch": n})
+
     def _motif_idle_then_eom(self, op: dict) -> None:
         """After a pulse on a channel with an EOM (not in EOM mode): two or three delays - a short one first, then one
         of about the rise time - that together stay below the pulse's fall time, then enable_eom_mode (whose buffer
@@ -821,6 +839,7 @@ class ProgGen:
             self._motif_fall(op)
             self._motif_short_behind(op)
             self._motif_idle_then_eom(op)
+            self._motif_idle_twice(op)
             if "phase" in op["pulse"]:
                 self.last_phase[op["ch"]] = op["pulse"]["phase"]
             if op["pulse"].get("pps"):
